@@ -130,6 +130,14 @@ class SegInst(BaseInstance):
             return R(['sliceiter', args[0], bv(0, 64)])
         if re.match(r"^<std::slice::IterMut<.*> as IntoIterator>::into_iter$", c):
             return R(args[0])
+        if re.match(r"^<std::slice::IterMut<.*> as Iterator>::skip$", c):
+            it = args[0]
+            return R(['sliceiter', it[1], bv(conc(it[2]) + conc(args[1]), 64)])
+        if re.match(r"^<Skip<std::slice::IterMut<.*>> as IntoIterator>::into_iter$", c):
+            return R(args[0])
+        if re.match(r"^<Skip<std::slice::IterMut<.*>> as Iterator>::next$", c):
+            c = "<std::slice::IterMut<'_, X> as Iterator>::next"
+            return s.user_intrinsic(eng, st, fr, stmt, c, args)
         if re.match(r"^<std::slice::IterMut<.*> as Iterator>::next$", c):
             it = eng.read(st, args[0])
             vec = eng.read(st, it[1])
